@@ -112,16 +112,44 @@ def run(ctx):
     classes, stage_inputs = {}, {"inside": 0, "outside_polygon": 0, "polygon_but_psin_gt_1": 0, "clamped_psin_0": 0,
                                  "zero_inplane_field": 0, "one_inplane_component_zero": 0, "psin_exactly_1_inside_polygon": 0}
     profile_kinds = {}
-    n_search = n_errors = n_radius_split = 0
+    n_search = n_errors = n_radius_split = set_index = 0
+    array_shapes, rejection_outcomes = {}, {}
     for E in eqs:
         n_pts = n_pts_bundled if E.params is None else n_pts_syn
         pts = H.sample_points(E, rng, n_pts)
         n_sets = 3 if quick else 6
-        sets = [H.ProfileSet(rng) for _ in range(n_sets)]
-        built = [ps.build(E.eq) for ps in sets]
-        for ps in sets:
-            for pr in (ps.scalar, ps.vt, ps.vp, ps.vn):
+        sets, built = [], []
+        for _ in range(n_sets):
+            ps = H.ProfileSet(rng, set_index)
+            set_index += 1
+            info = {"equilibrium": E.describe(), "profiles": ps.describe()}
+            ctx.crumb(info)
+            try:
+                fns = ps.build(E.eq)
+            except Exception as e:      # every generated profile is valid: a rejection is a failing input
+                fails.append(dict(info, clause="a valid profile was rejected: map2d/map3d/map_vector2d/map_vector3d raised %s"
+                                               % type(e).__name__, error=str(e)[:300]))
+                continue
+            sets.append(ps)
+            built.append(fns)
+            for role, pr in (("map2d/map3d", ps.scalar), ("map_vector", ps.vt), ("map_vector", ps.vp), ("map_vector", ps.vn)):
                 profile_kinds[pr.kind] = profile_kinds.get(pr.kind, 0) + 1
+                if pr.kind == "array":
+                    key = "%s N=%d %s %s" % (role, pr.desc["N"], pr.desc["container"], pr.desc["flavour"])
+                    array_shapes[key] = array_shapes.get(key, 0) + 1
+        # below the smallest N: the documented interpolant's own rejection is the expected outcome
+        expected_rej, seen_rej = H.rejected_profile_outcomes(E.eq)
+        rejection_outcomes["expected"] = expected_rej
+        for nm, got in seen_rej.items():
+            rejection_outcomes.setdefault(nm, {}).setdefault(got, 0)
+            rejection_outcomes[nm][got] += 1
+            if got != expected_rej:
+                fails.append({"equilibrium": E.describe(), "profile": [[0.5], [1.0]], "entry_point": nm, "observed": got,
+                              "expected": expected_rej,
+                              "clause": "a 2x1 profile (below the interpolant's minimum of 2 knots) is not rejected like the documented interpolant"})
+        if not sets:
+            continue
+        n_sets = len(sets)
         angles = []
         for pi, (x, y, z, cls) in enumerate(pts):
             k = pi % n_sets
@@ -286,7 +314,8 @@ def run(ctx):
                 "non-trivial = inside the LCFS or drawn from a boundary class (near LCFS, near axis, grid node, near polygon edge); "
                 "one gradient case = one node value of a d psi interpolator against the model's np.gradient line",
         "distribution": {"equilibria": [E.describe()["name"] for E in eqs], "sign_of_psi_lcfs_minus_psi_axis": sign_hist,
-                         "point_classes": classes, "lcfs_classes": stage_inputs, "profile_kinds": profile_kinds,
+                         "point_classes": classes, "lcfs_classes": stage_inputs, "profile_kinds": profile_kinds, "array_profile_shapes(entry point, N, container, flavour)": array_shapes,
+                         "profile_with_N=1(expected outcome and observed per entry point)": rejection_outcomes,
                          "ambiguous_psin_within_tolerance_of_1": n_amb, "gradient_node_values": len(grad_cases),
                          "search_points": n_search, "points_where_scalar_and_vector_mapper_radius_differ": n_radius_split, "points_where_the_implementation_raised": n_errors, "disagreeing_stage_histogram": stage_hist},
         "tolerance": {"psi_n": "2^-40 + 2^-38 (|psi|+|psi_axis|+|psi_lcfs|)/|psi_lcfs-psi_axis| (absolute)",
